@@ -190,6 +190,10 @@ func TestC30(t *testing.T) {
 				}
 				time.Sleep(10 * time.Millisecond)
 			}
+			if _, exited := tool.wait(0); exited && strings.Contains(tool.output(), "address already in use") {
+				c.Inconclusive("the UDP port chosen for bisquitt was taken by another process")
+				return
+			}
 			if code, exited := tool.wait(0); exited {
 				c.Violation("tool-exits|bisquitt", fmt.Sprintf("bisquitt exited with status %d on a valid predefined-topics configuration", code), witness(map[string]interface{}{"args": args, "output": tool.output()}))
 				return
